@@ -714,9 +714,12 @@ pub fn run_c14(ec: &EnumCase) -> RunReport {
         }
     }
     let n = clean.ops.len();
-    // long operation logs (the large workloads): the first 30, the last 60 and every stride-th crash point
-    let stride = if n > 400 { n / 150 } else { 1 };
-    let sampled = |k: usize| stride == 1 || k < 30 || k + 60 >= n || k % stride == 0;
+    // every evaluation re-reads or re-writes the whole file, so it costs about one unit per data section: the large
+    // workloads get about 30 000 / sections crash points and as many failing operations (at least 12; always the
+    // first 6 and the last 12 crash points, where the header is rewritten) instead of all of them
+    let want_points = (30_000 / (crate::props::sections_of(base).max(1) as usize)).max(12);
+    let stride = if n + 1 > want_points { (n + 1 + want_points - 1) / want_points } else { 1 };
+    let sampled = |k: usize| stride == 1 || k < 6 || k + 12 >= n || k % stride == 0;
     if stride > 1 {
         *st.counters.entry("workloads_with_sampled_fault_points".into()).or_insert(0) += 1;
     }
@@ -730,6 +733,7 @@ pub fn run_c14(ec: &EnumCase) -> RunReport {
             } else if !sampled(k) {
                 continue;
             }
+            crate::driver::heartbeat();
             evals += 1;
             st.faults.entry("F6_crash_point".into()).and_modify(|x| *x += 1).or_insert(1);
             let img = image_after(&clean.ops, k);
@@ -776,15 +780,16 @@ pub fn run_c14(ec: &EnumCase) -> RunReport {
                 }
             }
         }
-        let plan_stride = if plans.len() > 240 { plans.len() / 120 } else { 1 };
+        let plan_stride = if plans.len() > want_points { (plans.len() + want_points - 1) / want_points } else { 1 };
         for (pi, plan) in plans.into_iter().enumerate() {
             if let Some(only) = &ec.only_fail {
                 if *only != plan {
                     continue;
                 }
-            } else if plan_stride > 1 && pi % plan_stride != 0 && pi % (2 * plan_stride) != 1 {
+            } else if plan_stride > 1 && pi % plan_stride != 0 {
                 continue;
             }
+            crate::driver::heartbeat();
             evals += 1;
             let mut c = base.clone();
             c.sink.fail = Some(plan.clone());
